@@ -33,6 +33,7 @@
 (*          opt    : "given" | "omitted"  the other optional arguments (HDC deltas)       *)
 (*          fixval : the fixed value of a parameter that is both fixed and dependent        *)
 (*                   ("nonzero" | zero as int / float / -0.0 / numpy float / numpy int)     *)
+(*          container : the container / dtype of non-finite evaluation points               *)
 (*          skind  : "any" | "Width" | "Number" | "Points"  which slicer class carries    *)
 (*                   the unknown option, skw : its name ("bogus" = no slicer knows it)    *)
 (* Stages are numbered construct 1 < slice 2 < fit 3 < compute 4; 5 = a result exists.   *)
@@ -49,7 +50,11 @@ Bases == << <<Absent>>,
 
 OkOp(kind) == [kind |-> kind, arg |-> "Ok", pos |-> 0]
 DefaultCtx == [fixed |-> -1, sample |-> "none", fitted |-> TRUE, opt |-> "given",
-               skind |-> "any", skw |-> "bogus", fixval |-> "nonzero"]
+               skind |-> "any", skw |-> "bogus", fixval |-> "nonzero", container |-> "float64"]
+
+(* how non-finite evaluation points are handed over: a float64 ndarray, an ndarray of dtype *)
+(* object, an object-typed pandas DataFrame / Series, a float32 ndarray, a nested list      *)
+Containers == {"float64", "object", "pandas", "float32", "list"}
 
 (* the value at which the parameter that is "both fixed and dependent" is fixed: a value is  *)
 (* fixed when it is not None - zero in any spelling is a fixed value like every other        *)
@@ -108,6 +113,10 @@ Stage(c) ==
     ELSE 5
 
 (* 'conditional_on': None is only enumerated together with 'parameters' *)
+(* the malformed arguments that are non-finite evaluation points (x, p or given) *)
+NonFiniteArgs == {"PdfNaN", "PdfInf", "CdfNaN", "CdfInf", "MpdfNaN", "MpdfInf", "McdfNaN", "McdfInf", "MicdfNaN",
+                  "MicdfInf", "CcdfNaN", "CcdfInf", "CcdfGivenNaN", "CcdfGivenInf", "CicdfNaN", "CicdfInf",
+                  "CicdfGivenNaN", "CicdfGivenInf", "TpdfNaN", "TpdfInf"}
 FitAtNames == {"MissingMethod", "UnknownMethod", "UnknownWeights", "UnknownKey", "UnknownKeyPlus"}
 InDomain(c) ==
     /\ \A i \in 1..c.n : c.dims[i].cond = CondNone => c.dims[i].params # "Absent"
@@ -121,6 +130,7 @@ InDomain(c) ==
     /\ (~c.ctx.fitted => c.fit.kind \in {"None", "Ok"} /\ c.data = "Ok")
     /\ (c.ctx.sample # "none" => c.op.kind \in TwoDimOnly)
     /\ (c.ctx.opt # "given" => c.op.kind = "hdc")
+    /\ (c.ctx.container # "float64" => c.op.arg \in NonFiniteArgs)
     /\ (c.ctx.fixval # "nonzero" => \E i \in 1..c.n : c.dims[i].params = "FixedAndDependent")
     /\ (c.ctx.skind # "any" =>
           \/ /\ \E i \in 1..c.n : c.dims[i].slicer = "UnknownKwarg"
@@ -292,10 +302,13 @@ SlicerCtxs(c) ==      \* every slicer class x (a bogus name and every option onl
     ELSE IF Len(c.mal) = 1 /\ c.mal[1].name = "SlicerRangeAboveData"
     THEN {[DefaultCtx EXCEPT !.skind = k, !.skw = "value_range"] : k \in {"Width", "Number"}}
     ELSE {}
+ContainerCtxs(c) ==
+    IF Len(c.mal) = 1 /\ c.mal[1].name \in NonFiniteArgs
+    THEN {[DefaultCtx EXCEPT !.container = k] : k \in Containers} ELSE {}
 FixedCtxs(c) ==
     IF Len(c.mal) = 1 /\ c.mal[1].name = "ParamFixedAndDependent"
     THEN {[DefaultCtx EXCEPT !.fixval = v] : v \in FixedValues} ELSE {}
-InContexts(S) == UNION {{[c EXCEPT !.ctx = x] : x \in Contexts(c) \cup SlicerCtxs(c) \cup FixedCtxs(c)} : c \in S}
+InContexts(S) == UNION {{[c EXCEPT !.ctx = x] : x \in Contexts(c) \cup SlicerCtxs(c) \cup FixedCtxs(c) \cup ContainerCtxs(c)} : c \in S}
 AllCases(BS, PairBS) == InContexts(GoodCases(BS) \cup Singles(BS)) \cup Pairs(PairBS)
 
 ----------------------------------------------------------------------------
@@ -343,6 +356,9 @@ FitExc(c, sc) ==
     ELSE "ValueError"
 ComputeExc(c, sc) ==
     IF OpOk(c) THEN "none"
+    \* deviation: the finiteness check does not look into object-typed containers
+    ELSE IF sc = "objectunchecked" /\ c.ctx.container \in {"object", "pandas"} /\ c.op.arg \in NonFiniteArgs
+         THEN "none"
     ELSE IF sc = "sample" /\ c.op.kind = "ds" /\ c.op.arg = "Ok" /\ c.ctx.sample = "two" THEN "none"
     ELSE IF c.op.kind \in TwoDimOnly THEN "NotImplementedError"
     ELSE IF c.op.kind = "iform" THEN "TypeError"
